@@ -1,5 +1,5 @@
 // C07 conformance driver: realises ONE configuration tuple of spec/transport/TlsPolicy.tla per forked child on the real
-// iora engine (Transport / HttpClient / TLS listener) against a scripted peer written with the OpenSSL API (or a
+// iora engine (Transport / HttpClient / TLS listener / HttpServer) against a scripted peer written with the OpenSSL API (or a
 // plaintext / garbage peer), with a byte-scanning relay in the middle that sees the wire.
 //
 //   drv_tls run <cases.txt> <out.ndjson> <parallel> <certdir>
@@ -10,7 +10,8 @@
 // observables (only facts, no judgement - TlsPolicyTrace.tla judges):
 //   started    the engine started and (role Server) the listener was added
 //   announced  role Client: onConnect fired / connectSync returned ok / HttpClient returned a response
-//              role Server: onConnect fired for the accepted session (i.e. after the TLS handshake; NOT onAccept)
+//              role Server: onConnect fired for the accepted session (i.e. after the TLS handshake; NOT onAccept);
+//              via HttpServer: the request handler ran
 //   accepted   role Server: onAccept fired (TCP accept; informational)
 //   appOut     the peer read the engine application's marker (decrypted by OpenSSL, or raw for a non-TLS peer)
 //   appIn      the engine's application received bytes through onData / an HTTP response body
@@ -18,6 +19,7 @@
 //   peerHs     the OpenSSL peer completed a handshake;  peerVer its protocol version (10..13, 0 = none)
 //   closed     the engine reported onClose for the session;  timeout: the tuple ran into the driver's deadline
 #include "iora/network/http_client.hpp"
+#include "iora/network/http_server.hpp"
 #include "iora/network/transport.hpp"
 #include "iora/network/transport_impl.hpp"
 
@@ -402,18 +404,29 @@ static void rawDrain(int fd, Obs &obs, const std::string &needle, std::atomic<bo
 }
 
 // after a completed handshake: exchange the markers through the TLS session
-static void tlsExchange(SSL *ssl, int fd, Obs &obs, bool http, bool writeFirst)
+enum class Xchg
+{
+  Raw,        // write the peer marker, read until the engine marker shows
+  HttpServer, // the peer is an HTTP server: answer the first complete request
+  HttpClient  // the peer is an HTTP client: send a GET, read the response
+};
+static std::string httpRequest()
+{
+  return "GET /c07?m=" + kPeerMarker + " HTTP/1.1\r\nHost: localhost\r\nX-Marker: " + kPeerMarker +
+         "\r\nConnection: close\r\n\r\n";
+}
+static void tlsExchange(SSL *ssl, int fd, Obs &obs, Xchg mode)
 {
   setIoTimeout(fd, 100);
   std::string acc;
   bool wrote = false;
-  auto writeMarker = [&]
+  auto write = [&](const std::string &out)
   {
-    std::string out = http ? httpResponse() : kPeerMarker;
     SSL_write(ssl, out.data(), (int)out.size());
     wrote = true;
   };
-  if (writeFirst && !http) writeMarker();
+  if (mode == Xchg::Raw) write(kPeerMarker);
+  if (mode == Xchg::HttpClient) write(httpRequest());
   while (!timeUp())
   {
     char buf[8192];
@@ -422,8 +435,8 @@ static void tlsExchange(SSL *ssl, int fd, Obs &obs, bool http, bool writeFirst)
     {
       acc.append(buf, (size_t)n);
       if (acc.find(kEngineMarker) != std::string::npos) obs.appOut = true;
-      if (http && !wrote && acc.find("\r\n\r\n") != std::string::npos) writeMarker();
-      if (obs.appOut && wrote && !http) break;
+      if (mode == Xchg::HttpServer && !wrote && acc.find("\r\n\r\n") != std::string::npos) write(httpResponse());
+      if (obs.appOut && wrote && mode != Xchg::HttpServer) break;
       continue;
     }
     int e = SSL_get_error(ssl, n);
@@ -474,7 +487,7 @@ static void peerServer(const Case &c, Obs &obs, int lfd)
       {
         obs.peerVer = verToNum(SSL_version(ssl));
         obs.peerHs = true;
-        tlsExchange(ssl, fd, obs, http, true);
+        tlsExchange(ssl, fd, obs, http ? Xchg::HttpServer : Xchg::Raw);
         SSL_shutdown(ssl);
       }
       else
@@ -542,6 +555,7 @@ static void peerServer(const Case &c, Obs &obs, int lfd)
 static void peerClient(const Case &c, Obs &obs, uint16_t port)
 {
   const std::string kind = c.s("peerKind");
+  const bool http = c.s("via") == "HttpServer";
   int fd = connectLoopback(port);
   if (fd < 0)
   {
@@ -565,7 +579,7 @@ static void peerClient(const Case &c, Obs &obs, uint16_t port)
     {
       obs.peerVer = verToNum(SSL_version(ssl));
       obs.peerHs = true;
-      tlsExchange(ssl, fd, obs, false, true);
+      tlsExchange(ssl, fd, obs, http ? Xchg::HttpClient : Xchg::Raw);
       SSL_shutdown(ssl);
     }
     SSL_free(ssl);
@@ -573,7 +587,8 @@ static void peerClient(const Case &c, Obs &obs, uint16_t port)
   }
   else if (kind == "Plaintext")
   {
-    send(fd, kPeerMarker.data(), kPeerMarker.size(), MSG_NOSIGNAL);
+    const std::string out = http ? httpRequest() : kPeerMarker;
+    send(fd, out.data(), out.size(), MSG_NOSIGNAL);
     rawDrain(fd, obs, kEngineMarker, obs.appOut, true);
   }
   else
@@ -794,6 +809,96 @@ static void runServer(const Case &c, Obs &obs)
   relay.join();
 }
 
+// the port of the only listening TCP socket of this process (call before the relay / peer open theirs); 0 if none or several
+static int soleListeningPort()
+{
+  int found = 0, n = 0;
+  for (int fd = 3; fd < 1024; ++fd)
+  {
+    int acc = 0;
+    socklen_t al = sizeof acc;
+    if (getsockopt(fd, SOL_SOCKET, SO_ACCEPTCONN, &acc, &al) != 0 || !acc) continue;
+    sockaddr_storage ss{};
+    socklen_t sl = sizeof ss;
+    if (getsockname(fd, (sockaddr *)&ss, &sl) != 0) continue;
+    if (ss.ss_family == AF_INET)
+    {
+      found = ntohs(((sockaddr_in *)&ss)->sin_port);
+      ++n;
+    }
+    else if (ss.ss_family == AF_INET6)
+    {
+      found = ntohs(((sockaddr_in6 *)&ss)->sin6_port);
+      ++n;
+    }
+  }
+  return n == 1 ? found : 0;
+}
+
+// engine = server through HttpServer::enableTls (requireClientCert is mapped to serverTls.verifyPeer there)
+static void runServerHttp(const Case &c, Obs &obs)
+{
+  // port 0: the kernel picks a free port that nobody else can share (the engine sets SO_REUSEPORT, so a fixed port could
+  // be shared with a foreign listener); HttpServer cannot report it, it is read back from the process's own socket below
+  HttpServer srv("127.0.0.1", 0);
+  try
+  {
+    if (c.b("tlsRequested"))
+    {
+      HttpServer::TlsConfig t;
+      t.certFile = g_certs + "/srv_valid.pem";
+      t.keyFile = g_certs + "/srv_valid.key";
+      const std::string a = c.s("anchor");
+      if (a == "RightCA") t.caFile = g_certs + "/ca.pem";
+      if (a == "WrongCA") t.caFile = g_certs + "/ca2.pem";
+      t.requireClientCert = c.b("requireClientCert");
+      srv.enableTls(t);
+    }
+    srv.onGet("/c07",
+              [&](const HttpServer::Request &, HttpServer::Response &rs)
+              {
+                obs.announced = true; // the request reached the application
+                obs.appIn = true;
+                obs.appInMarker = true;
+                rs.body = kEngineMarker;
+              });
+    srv.start();
+  }
+  catch (const std::exception &e)
+  {
+    obs.startErr = std::string(e.what()).substr(0, 100);
+    return;
+  }
+  const int port = soleListeningPort();
+  if (port <= 0)
+  {
+    obs.startErr = "cannot find the HttpServer's listening socket";
+    srv.stop();
+    return;
+  }
+  obs.started = true;
+  Relay relay;
+  if (!relay.start((uint16_t)port, false, &obs))
+  {
+    obs.startErr = "relay failed";
+    srv.stop();
+    return;
+  }
+  std::thread peer([&] { peerClient(c, obs, relay.port); });
+  double peerDoneAt = 0;
+  waitUntil(
+    [&]
+    {
+      if (obs.peerDone && peerDoneAt == 0) peerDoneAt = vf::nowSec();
+      return peerDoneAt > 0 && (obs.appOut || vf::nowSec() - peerDoneAt > 0.3);
+    });
+  if (vf::nowSec() > g_deadline) obs.timeout = true;
+  g_stop = true;
+  peer.join();
+  srv.stop();
+  relay.join();
+}
+
 static std::string runCase(const Case &c)
 {
   signal(SIGPIPE, SIG_IGN);
@@ -838,6 +943,10 @@ static std::string runCase(const Case &c)
         relay.join();
         close(plfd);
       }
+    }
+    else if (c.s("via") == "HttpServer")
+    {
+      runServerHttp(c, obs);
     }
     else
     {
